@@ -4,8 +4,10 @@ pub mod alloc;
 pub mod args;
 pub mod httpref;
 pub mod json;
+pub mod net;
 pub mod reader;
 pub mod reqgen;
+pub mod respgen;
 pub mod report;
 pub mod rng;
 pub mod util;
